@@ -795,6 +795,42 @@ theorem gorilla_refines_spec_complete_partial (e : Bool) (d : Doc) (hd : PlainDo
       rw [(mkRoute_some hmk).2.1]
       exact hdecl
 
+/-- literal_wins against the spec: when some literal template is a candidate, the returned route is a literal template
+    (so, by `gorilla_refines_spec_sound`, one of the literal candidates) -/
+theorem gorilla_refines_spec_literal_wins (e : Bool) (d : Doc) (hd : PlainDoc d)
+    (hsh : leakShape (inMatchingOrder d.paths) = false) (rs : List GRoute) (hrs : gorillaRoutes d = some rs) (req : Req)
+    (t m : Str) (ps : List (Str × Str)) (sv : SrvRef) (h : gorillaFind d req = .route t m ps sv)
+    (c0 : Cand) (hc0 : c0 ∈ specCands e d req) (hlit : isLiteralT c0.template = true) : isLiteralT t = true := by
+  have hwin := gorilla_literal_wins d req rs hrs t m ps sv h
+  have hrs' := hrs
+  unfold gorillaRoutes at hrs'
+  obtain ⟨heff, hbuilt⟩ := routes_effective hrs' hsh
+  -- the literal candidate's route matches the request
+  simp only [specCands, List.mem_flatMap] at hc0
+  obtain ⟨pd0, hpd0, hcp0⟩ := hc0
+  obtain ⟨ht0, _, g0, hg0, _, hmatch0⟩ := match_of_cand e d hd req pd0 hpd0 c0 hcp0
+  obtain ⟨r0, hmk0⟩ := hbuilt pd0 hpd0 g0 hg0
+  have hr0 : r0 ∈ rs := (heff r0).2 ⟨pd0, hpd0, g0, hg0, hmk0⟩
+  obtain ⟨tt0, htt0⟩ := template_parses hd hpd0 hg0 hmk0
+  have hn0 : nvars r0.template = 0 := by
+    rw [(mkRoute_some hmk0).1, ← ht0]
+    exact (isLiteralT_iff_nvars (by rw [ht0]; exact htt0)).1 hlit
+  -- the returned route's template parses as well
+  unfold gorillaFind gorillaFindL at h
+  rw [hrs'] at h
+  obtain ⟨pre, r, post, b, e0, _, _, ht, _, _, _, _⟩ := gFirst_route h
+  have hr : r ∈ rs := by rw [e0]; simp
+  obtain ⟨pd, hpd, g, hg, hmk⟩ := (heff r).1 hr
+  obtain ⟨tt, htt⟩ := template_parses hd hpd hg hmk
+  have htpl : pd.template = t := by rw [← (mkRoute_some hmk).1, ht]
+  rw [htpl] at htt
+  refine (isLiteralT_iff_nvars htt).2 ?_
+  cases hnt : nvars t with
+  | zero => rfl
+  | succ n =>
+    exfalso
+    exact hmatch0 r0 hmk0 (hwin r0 hr0 (by rw [hn0, hnt]; omega))
+
 /-! ## witnesses: inside each exclusion class the modelled code really differs from the spec -/
 
 open W in
